@@ -3,6 +3,7 @@
   templates, a `Step.rule` target of a plain / new-world / each-world rule (non-quantifier shape) is a legal step.
 -/
 import Ptx.Proofs.SearchLegal
+import Ptx.Proofs.SearchFresh
 namespace Ptx.Search
 open Ptx
 
@@ -267,6 +268,217 @@ theorem target_legal_table {L : LogicData} {s : SState} {bi : Nat} (hinv : Inv L
   · next hw => rcases hw3 with h1 | h1 <;> simp [hw, isWorldWitness] at h1
 
 
+/-! ### quantifier rows -/
+
+def tmRawOK : Tm → Bool
+  | .raw => true
+  | .op1 _ t => tmRawOK t
+  | .op2 _ t u => tmRawOK t && tmRawOK u
+  | _ => false
+
+def tmQOK : Tm → Bool
+  | .lhs => true
+  | .whole => true
+  | .bind _ t => tmRawOK t
+  | .op1 _ t => tmQOK t
+  | .op2 _ t u => tmQOK t && tmQOK u
+  | _ => false
+
+/-- a new-constant / each-constant row: quantifier shape, non-empty, every template instantiates, nothing at another world -/
+def rowQOKB (k : RuleKey) (r : Rule) : Bool :=
+  (match k.shape with | .quant _ => true | _ => false) &&
+  (r.witness == .newConst || r.witness == .eachConst) &&
+  !r.branches.isEmpty &&
+  r.branches.all fun br => br.all fun
+    | .node n => tmQOK n.tm && !n.other
+    | .access => false
+
+/-- totality of the regenerated quantifier rows -/
+def templatesQOKB (L : LogicData) : Bool :=
+  L.rules.all fun kr => !(kr.2.witness == .newConst || kr.2.witness == .eachConst) || rowQOKB kr.1 kr.2
+
+theorem tmRawOK_inst {raw : Sent} : ∀ tm : Tm, tmRawOK tm = true → (tm.instRaw raw).isSome = true := by
+  intro tm
+  induction tm with
+  | raw => intro _; rfl
+  | op1 o t ih => intro h; simp only [Tm.instRaw, Option.isSome_map]; exact ih h
+  | op2 o t u iht ihu =>
+    intro h
+    simp only [tmRawOK, Bool.and_eq_true] at h
+    obtain ⟨a, ha⟩ := Option.isSome_iff_exists.1 (iht h.1)
+    obtain ⟨c, hc⟩ := Option.isSome_iff_exists.1 (ihu h.2)
+    simp [Tm.instRaw, ha, hc]
+  | lhs => intro h; cases h
+  | rhs => intro h; cases h
+  | whole => intro h; cases h
+  | bind q t _ => intro h; cases h
+
+theorem tmQOK_inst {whole l body : Sent} {var : Nat × Nat} :
+    ∀ tm : Tm, tmQOK tm = true → (tm.inst whole l none (some body) var).isSome = true := by
+  intro tm
+  induction tm with
+  | lhs => intro _; rfl
+  | whole => intro _; rfl
+  | bind q t _ =>
+    intro h
+    obtain ⟨a, ha⟩ := Option.isSome_iff_exists.1 (tmRawOK_inst (raw := body) t h)
+    simp [Tm.inst, ha]
+  | op1 o t ih => intro h; simp only [Tm.inst, Option.isSome_map]; exact ih h
+  | op2 o t u iht ihu =>
+    intro h
+    simp only [tmQOK, Bool.and_eq_true] at h
+    obtain ⟨a, ha⟩ := Option.isSome_iff_exists.1 (iht h.1)
+    obtain ⟨c, hc⟩ := Option.isSome_iff_exists.1 (ihu h.2)
+    simp [Tm.inst, ha, hc]
+  | rhs => intro h; cases h
+  | raw => intro h; cases h
+
+theorem rowq_groups {k : RuleKey} {r : Rule} (hrow : rowQOKB k r = true) {whole l body : Sent} (hraw : whole.qraw = some body)
+    (w : Option Nat) :
+    ∃ g0 rest, mapOpt (instAdds whole l none whole.qraw whole.qvar w none) r.branches = some (g0 :: rest) := by
+  simp only [rowQOKB, Bool.and_eq_true, List.all_eq_true] at hrow
+  obtain ⟨⟨_, hne⟩, hitems⟩ := hrow
+  have hsome : (mapOpt (instAdds whole l none whole.qraw whole.qvar w none) r.branches).isSome = true := by
+    apply mapOpt_isSome_of_all
+    intro br hbr
+    rw [instAdds_eq]
+    apply mapOpt_isSome_of_all
+    intro a ha
+    have hit := hitems br hbr a ha
+    cases a with
+    | access => cases hit
+    | node n =>
+      simp only [Bool.and_eq_true, Bool.not_eq_eq_eq_not, Bool.not_true] at hit
+      obtain ⟨s0, hs0⟩ := Option.isSome_iff_exists.1 (tmQOK_inst (whole := whole) (l := l) (body := body) (var := whole.qvar) n.tm hit.1)
+      simp [instAdd1, hraw, hs0, hit.2]
+  obtain ⟨gs, hgs⟩ := Option.isSome_iff_exists.1 hsome
+  obtain ⟨g0, rest, rfl⟩ := mapOpt_cons_of_ne hgs (by
+    intro he; rw [he] at hne; simp at hne)
+  exact ⟨g0, rest, hgs⟩
+
+/-- the calculus accepts a constant-witness `Step.rule` on a quantifier node whose sentence is well formed (`quantOK`) -/
+theorem rule_step_legal_q {L : LogicData} {t : Tableau} {bi i : Nat} {b : Branch} {sn : Sent} {d : Option Bool} {w : Option Nat}
+    {c : Nat × Nat} {k : RuleKey} {rl : Rule} (hb : t[bi]? = some b) (ho : b.closed = false)
+    (hn : b.nodes[i]? = some (.sent sn d w)) (hk : nodeKey (.sent sn d w) = some k) (hrl : L.rule? k = some rl)
+    (hrow : rowQOKB k rl = true)
+    (hqok : ∀ sh ng whole, sn.decomp = some (sh, ng, whole) → whole.quantOK L = true)
+    (hfresh : rl.witness = .newConst → b.consts.contains c = false) :
+    ∃ t', applyStep L t (.rule bi i (some c) none) = some t' := by
+  simp only [nodeKey] at hk
+  split at hk
+  rotate_left
+  · cases hk
+  next sh ng whole hdec =>
+  simp only [Option.some.injEq] at hk
+  subst hk
+  obtain ⟨_, hsh⟩ := Sent.decomp_spec hdec
+  have hrow' := hrow
+  simp only [rowQOKB, Bool.and_eq_true, Bool.or_eq_true, beq_iff_eq] at hrow'
+  obtain ⟨⟨⟨hq, hwit⟩, _⟩, _⟩ := hrow'
+  -- the compound is a quantified sentence
+  obtain ⟨q, vi, vs, body, rfl⟩ : ∃ q vi vs body, whole = .quant q vi vs body := by
+    cases whole with
+    | quant q vi vs body => exact ⟨q, vi, vs, body, rfl⟩
+    | op1 o a => simp only [Shape.of, Option.some.injEq] at hsh; rw [← hsh] at hq; simp at hq
+    | op2 o a c' => simp only [Shape.of, Option.some.injEq] at hsh; rw [← hsh] at hq; simp at hq
+    | atom _ _ => simp [Shape.of] at hsh
+    | pred _ _ => simp [Shape.of] at hsh
+  obtain ⟨g0, rest, hgs⟩ := rowq_groups hrow (whole := .quant q vi vs body) (l := (Sent.quant q vi vs body).instC c.1 c.2)
+    (body := body) rfl w
+  have hwg : witnessGroups b (.quant q vi vs body) body w (some c) none rl = some (g0 :: rest) := by
+    unfold witnessGroups
+    rcases hwit with h1 | h1
+    · simp only [h1]
+      have := hfresh h1
+      obtain ⟨c1, c2⟩ := c
+      have hf' : (c1, c2) ∉ b.consts := by simpa using this
+      simpa [hf'] using hgs
+    · simp only [h1]
+      obtain ⟨c1, c2⟩ := c
+      simpa using hgs
+  have hmodal : ((Shape.quant q).isModalShape && w.isNone) = false := by simp [Shape.isModalShape]
+  have hsh' : sh = .quant q := by simpa [Shape.of] using hsh.symm
+  subst hsh'
+  have hrg : L.ruleGroups b sn d w (some c) none = some (rl, g0 :: rest) := by
+    simp [LogicData.ruleGroups, hdec, hrl, Sent.lhs?, hmodal, hqok _ _ _ hdec, hwg]
+  have ha : applyAt L t bi b (.rule bi i (some c) none) =
+      some (t.fork bi (b.extend g0 (if rl.ticks then some i else none))
+        (rest.map fun g => { (b.extend g (if rl.ticks then some i else none)) with parent := some bi })) := by
+    simp [applyAt, hn, hrg]
+  exact ⟨_, applyStep_of_applyAt (st := .rule bi i (some c) none) hb ho ha⟩
+
+/-- targets of a new-constant / each-constant rule are legal when the row passes `rowQOKB` and the quantified sentences on the
+    branch are well formed (`quantOK`: the body does not re-bind the variable, nothing opaque inside) -/
+theorem target_legal_quant {L : LogicData} {s : SState} {bi : Nat} (hinv : Inv L s) {k : RuleKey}
+    (hrow : ∀ rl, L.rule? k = some rl → rowQOKB k rl = true)
+    (hqok : ∀ b, s.tab[bi]? = some b → ∀ sn d w, Node.sent sn d w ∈ b.nodes → ∀ sh ng whole,
+      sn.decomp = some (sh, ng, whole) → whole.quantOK L = true)
+    {st : Step} (hm : st ∈ targets L s (.table k) bi) :
+    st.branch = bi ∧ ∃ t', applyStep L s.tab st = some t' := by
+  obtain ⟨b, h, hb, hh, ho, hmem⟩ := mem_targets hm
+  have I := hinv.branch bi b h hb hh ho
+  simp only [tableTargets] at hmem
+  split at hmem
+  · cases hmem
+  next rl hrl =>
+  have hrowk := hrow rl hrl
+  have hwit : rl.witness = .newConst ∨ rl.witness = .eachConst := by
+    simp only [rowQOKB, Bool.and_eq_true, Bool.or_eq_true, beq_iff_eq] at hrowk
+    exact hrowk.1.1.2
+  have flag_ok : ∀ l, st ∈ flagTargets bi rl (h.quit k) l → st.branch = bi ∧ ∃ t', applyStep L s.tab st = some t' := by
+    intro l hf
+    unfold flagTargets at hf
+    split at hf
+    · cases hf
+    · obtain ⟨i, _, he⟩ := List.mem_map.1 hf
+      subst he
+      exact ⟨rfl, target_legal_quit hm rfl rfl⟩
+  have legal : ∀ i sn d w c, i ∈ s.live (.table k) bi → b.nodes[i]? = some (.sent sn d w) →
+      (rl.witness = .newConst → b.consts.contains c = false) →
+      ∃ t', applyStep L s.tab (.rule bi i (some c) none) = some t' := by
+    intro i sn d w c hi hn hfr
+    have hc : i ∈ h.cache (.table k) := ((mem_live hh).1 hi).1
+    obtain ⟨nd, hnd, hmatch, _⟩ := I.cacheSound (.table k) i hc
+    rw [hn] at hnd
+    simp only [Option.some.injEq] at hnd
+    subst hnd
+    have hkk : nodeKey (.sent sn d w) = some k := by simpa [matchesRule] using hmatch
+    exact rule_step_legal_q hb ho hn hkk hrl hrowk (hqok b hb sn d w (List.mem_of_getElem? hn)) hfr
+  split at hmem
+  · next hw => rcases hwit with h1 | h1 <;> simp [hw] at h1
+  · next hw => rcases hwit with h1 | h1 <;> simp [hw] at h1
+  · next hw => rcases hwit with h1 | h1 <;> simp [hw] at h1
+  · next hw =>
+    obtain ⟨i, hi, hx⟩ := List.mem_flatMap.1 hmem
+    split at hx
+    · next sn d w hn =>
+      split at hx
+      · exact flag_ok _ hx
+      · simp only [List.mem_singleton] at hx
+        subst hx
+        exact ⟨rfl, legal i sn d w _ hi hn (fun _ => nextConst_fresh b)⟩
+    · cases hx
+  · next hw =>
+    obtain ⟨i, hi, hx⟩ := List.mem_flatMap.1 hmem
+    split at hx
+    · next sn d w hn =>
+      split at hx
+      · exact flag_ok _ hx
+      · split at hx
+        · cases hx
+        · split at hx
+          · obtain ⟨c0, _, he⟩ := List.mem_map.1 hx
+            subst he
+            exact ⟨rfl, legal i sn d w c0 hi hn (fun h1 => by rw [hw] at h1; cases h1)⟩
+          · split at hx
+            · split at hx
+              · cases hx
+              · simp only [List.mem_singleton] at hx
+                subst hx
+                exact ⟨rfl, legal i sn d w (0, 0) hi hn (fun h1 => by rw [hw] at h1; cases h1)⟩
+            · cases hx
+    · cases hx
+
 theorem rowOK_of_templates {L : LogicData} (hT : templatesOKB L = true) {k : RuleKey} {rl : Rule} (hrl : L.rule? k = some rl)
     (hsh : (match k.shape with | .quant _ => true | _ => false) = false)
     (hw : rl.witness ≠ .newConst ∧ rl.witness ≠ .eachConst) : rowOKB L k rl = true := by
@@ -278,17 +490,33 @@ theorem rowOK_of_templates {L : LogicData} (hT : templatesOKB L = true) {k : Rul
   · exact absurd h1 hw.2
   · exact h1
 
+/-- targets of the identity rule are legal `.ident` steps of the calculus -/
+theorem target_legal_ident {L : LogicData} {s : SState} {bi : Nat} {st : Step} (hm : st ∈ targets L s .ident bi) :
+    ∃ t', applyStep L s.tab st = some t' := by
+  obtain ⟨b, h, hb, hh, ho, hmem⟩ := mem_targets hm
+  obtain ⟨hc, i, j, ni, np, nd, rfl, _, hji, hni, hnp, hnd, _, _⟩ := ident_targets_shape hmem
+  have hij : (i == j) = false := by simpa using fun he : i = j => hji he.symm
+  exact ⟨s.tab.set bi (b.extend [nd] none), applyStep_of_applyAt (st := .ident bi i j) hb ho
+    (by simp [applyAt, hc, hij, hni, hnp, hnd, Step.branch])⟩
+
 /-- PROGRESS: an enabled target (closure; access rules; table rules whose row passes `rowOKB`) can be applied -/
 theorem progress_apply {L : LogicData} (hmono : closureMonoB L = true) {s : SState} (hinv : Inv L s) {r : RuleId} {st : Step}
     (hleg : st ∈ enabled L s r st.branch)
-    (hrows : ∀ k, r = .table k → ∀ rl, L.rule? k = some rl → rowOKB L k rl = true) :
+    (hrows : ∀ k, r = .table k → (∀ rl, L.rule? k = some rl → rowOKB L k rl = true) ∨
+      ((∀ rl, L.rule? k = some rl → rowQOKB k rl = true) ∧
+        ∀ b, s.tab[st.branch]? = some b → ∀ sn d w, Node.sent sn d w ∈ b.nodes → ∀ sh ng whole,
+          sn.decomp = some (sh, ng, whole) → whole.quantOK L = true)) :
     ∃ s', stepEv L s (.apply r st) = some s' := by
   have hm := mem_enabled hleg
   have hstep : ∃ t', applyStep L s.tab st = some t' := by
     cases r with
     | closure => exact (target_legal_closure hmono hinv hm).2
     | frame fr => exact (target_legal_frame hinv hm).2
-    | table k => exact (target_legal_table hinv (hrows k rfl) hm).2
+    | table k =>
+      rcases hrows k rfl with h1 | ⟨h1, h2⟩
+      · exact (target_legal_table hinv h1 hm).2
+      · exact (target_legal_quant hinv h1 h2 hm).2
+    | ident => exact target_legal_ident hm
   obtain ⟨t', ht'⟩ := hstep
   obtain ⟨b, h, hb, hh, _, _⟩ := mem_targets hm
   have hinv1 := inv_search hinv r st.branch
